@@ -234,7 +234,7 @@ func c11Concurrent(c *Ctx) {
 		sc := j.sc
 		var first []int
 		firstOrder := ""
-		stats := explore.Run(explore.Config{MaxCost: j.bound, Prune: true, Deadline: c.Deadline, Shard: c.Shard, Shards: c.Shards, ShardDepth: 3}, func(x *explore.Exec, own bool) {
+		stats := explore.Run(explore.Config{Stop: schedStuck, MaxCost: j.bound, Prune: true, Deadline: c.Deadline, Shard: c.Shard, Shards: c.Shards, ShardDepth: 3}, func(x *explore.Exec, own bool) {
 			res := c11ConcExec(e, sc, x, true, c.Seed)
 			if !own {
 				return
